@@ -686,6 +686,79 @@ enum Unit {
     MeshCornerBall { depth: u8, pool: usize },
     /// the same workloads through ThreadPool::Global
     Global { kind: u8, cancel: bool },
+    /// product enumeration (default schedule): a grid of shapes x depths x every
+    /// pool size 1..=16 vs the no-pool mesh (which cells are pre-split depends on
+    /// the pool size, whether a pre-split cell collapses depends on the geometry)
+    PoolSweep { depth: u8, chunk: usize },
+}
+
+const SWEEP_CHUNKS: usize = 6;
+
+/// off-lattice spheres (centres on a 5^3 grid with irrational-looking offsets, 4
+/// radii) and tilted slabs: small, gently curved surfaces whose octree cells
+/// collapse, in every position relative to the pre-split cells
+fn sweep_shapes() -> Vec<(String, Prog)> {
+    let mut v = vec![];
+    let cs = [-0.668918f32, -0.33093978, 0.00068330765, 0.32769263, 0.59729064];
+    for (ri, r) in [0.17915599f32, 0.2876f32, 0.4381f32, 0.7106095f32].into_iter().enumerate() {
+        for (i, cx) in cs.iter().enumerate() {
+            for (j, cy) in cs.iter().enumerate() {
+                for (k, cz) in cs.iter().enumerate() {
+                    // thin the two larger radii: every other centre
+                    if ri >= 2 && (i + j + k) % 2 == 1 {
+                        continue;
+                    }
+                    let mut b = scene::PB::default();
+                    let root = b.sphere([*cx, *cz, *cy], r);
+                    v.push((format!("sphere c=({cx},{cz},{cy}) r={r}"), b.done(root)));
+                }
+            }
+        }
+    }
+    v
+}
+
+fn pool_sweep(cx: &mut Cx, depth: u8, chunk: usize) {
+    sched::set_mode(Mode::Sequential);
+    fidget_core::verif::set_hook(None);
+    let shapes = sweep_shapes();
+    let pools: Vec<ThreadPool> = (1..=16).map(|n| ThreadPool::Custom(rayon::ThreadPoolBuilder::new().num_threads(n).build().unwrap())).collect();
+    for (si, (name, prog)) in shapes.iter().enumerate() {
+        if si % SWEEP_CHUNKS != chunk {
+            continue;
+        }
+        if !cx.case(si as u64) {
+            continue;
+        }
+        let shape = build_shape::<VmFunction>(prog);
+        let vars = ShapeVars::<f32>::new();
+        let run = |pool: Option<&ThreadPool>| {
+            let settings = Settings { depth, world_to_model: nalgebra::Matrix4::identity(), threads: pool, cancel: CancelToken::new() };
+            let b = shape.bind(&vars).unwrap();
+            guard(|| Octree::build(&b, &settings).map(|o| mesh_obs(&o.walk_dual())))
+        };
+        let reference = run(None);
+        cx.add("evals", 1);
+        for (n, pool) in pools.iter().enumerate() {
+            cx.add("cases", 1);
+            cx.add("nontrivial", 1);
+            cx.add("evals", 1);
+            cx.add("pool_sweep_meshes", 1);
+            let got = run(Some(pool));
+            if got != reference {
+                let d = |r: &Result<Obs, String>| match r {
+                    Ok(Some(v)) => format!("{} triangles", v.len() / 9),
+                    Ok(None) => "None".to_owned(),
+                    Err(e) => format!("panic {e}"),
+                };
+                cx.violation(
+                    "mesh depends on the pool size (differs from the no-pool mesh)",
+                    json!({"shape": name, "depth": depth, "pool_threads": n + 1, "schedule": "default (one job)"}),
+                    format!("no pool: {}; pool of {} threads: {}", d(&reference), n + 1, d(&got)),
+                );
+            }
+        }
+    }
 }
 
 fn units(tier: Tier) -> Vec<Unit> {
@@ -738,6 +811,11 @@ fn units(tier: Tier) -> Vec<Unit> {
             v.push(Unit::Global { kind, cancel });
         }
     }
+    for depth in [2u8, 3, 4] {
+        for chunk in 0..SWEEP_CHUNKS {
+            v.push(Unit::PoolSweep { depth, chunk });
+        }
+    }
     v
 }
 
@@ -753,7 +831,7 @@ impl Check for C09 {
     }
     fn meta(&self, tier: Tier) -> Meta {
         Meta {
-            rule: "case = one complete execution of a real workload under a recorded schedule; the rayon stand-in resolves every decision from the schedule: (1) how the task list is cut into contiguous jobs (every composition up to max_jobs; map_init's init runs once per job), (2) which runnable job holds the baton at each scheduling point - parallel-op start, job end, and the verif-hooks points at the start of each raster root-tile task, each tile-recursion entry and each octree task (raster: also each cancellation poll) - explored by stateless re-execution in order of increasing preemption count up to the bound, (3) the environment's single step CancelToken::cancel(), offered at every scheduling point and at EVERY cancellation poll (per octree cell, per tile) until it has fired; workloads: 2D render with 2, 3, 4 root tiles and with 32 root tiles of one level over a scene with many distinct tile traces (each root tile = one simplify on the job's render handle; <= 3 jobs), 3D render with 2, 3, 4 root tiles, octree meshing of a scene with many distinct cell traces (depth 2 pool sizes 1 and 6, depth 3 pool size 2; task list cut into <= 3 / 2 jobs) of a corner ball united with a tilted floor in the mixed-depth pre-split regime (depth 2 pools 1, 3, 5; depth 3 pool 7), of a sphere and a box under a non-identity world-to-model transform (scale 2 + translation; 6 depth / pool-size combinations), and of a simple scene for one pool size per pre-split class (the pool size reaches the mesher only through target_count = min(8^depth, 10*threads): depth 0 -> the root cell alone; depth 1 -> 8 tasks for every n; depth 2 -> 15, 22, 36, 43, 50 tasks for n = 1..5 and 64 for n >= 6; quick: depths 0 and 1 n in {1,16}, depth 2 n in {1,2}; thorough: depth 2 n in {1..6,16} and depth 3 n in {1,7}), VM (+ JIT on one workload per kind), plus the no-pool paths (cancel at every poll), ThreadPool::Global (one workload per kind), and the row-parallel post-processing effects denoise_normals + apply_shading (6 rows cut into <= 3 jobs; SSAO excluded: unseeded RNG); oracles: never cancelled => Some(r) with r equal to the sequential no-pool result (images bitwise, meshes as sorted multisets of rotation-normalised triangles over vertex bit patterns); cancelled => None or exactly the full result, and None when the token is set at the first opportunity; one schedule per workload is replayed twice and must reproduce trace and observation; a prefix that diverges is a machinery error; shared tapes: 3 controlled threads x 2 rounds of point / interval / float-slice / grad-slice evaluation through handles onto one set of tapes, with a scheduling point before each round's tracing evaluations and before its bulk evaluations (4 per thread), explored like the other workloads, each thread's results equal to its solo results; labelled sampling supplement: the same bodies on free-running OS threads (200 rounds) - reported under its own counter, not deciding".into(),
+            rule: "case = one complete execution of a real workload under a recorded schedule; the rayon stand-in resolves every decision from the schedule: (1) how the task list is cut into contiguous jobs (every composition up to max_jobs; map_init's init runs once per job), (2) which runnable job holds the baton at each scheduling point - parallel-op start, job end, and the verif-hooks points at the start of each raster root-tile task, each tile-recursion entry and each octree task (raster: also each cancellation poll) - explored by stateless re-execution in order of increasing preemption count up to the bound, (3) the environment's single step CancelToken::cancel(), offered at every scheduling point and at EVERY cancellation poll (per octree cell, per tile) until it has fired; workloads: 2D render with 2, 3, 4 root tiles and with 32 root tiles of one level over a scene with many distinct tile traces (each root tile = one simplify on the job's render handle; <= 3 jobs), 3D render with 2, 3, 4 root tiles, octree meshing of a scene with many distinct cell traces (depth 2 pool sizes 1 and 6, depth 3 pool size 2; task list cut into <= 3 / 2 jobs) of a corner ball united with a tilted floor in the mixed-depth pre-split regime (depth 2 pools 1, 3, 5; depth 3 pool 7), of a sphere and a box under a non-identity world-to-model transform (scale 2 + translation; 6 depth / pool-size combinations), and of a simple scene for one pool size per pre-split class (the pool size reaches the mesher only through target_count = min(8^depth, 10*threads): depth 0 -> the root cell alone; depth 1 -> 8 tasks for every n; depth 2 -> 15, 22, 36, 43, 50 tasks for n = 1..5 and 64 for n >= 6; quick: depths 0 and 1 n in {1,16}, depth 2 n in {1,2}; thorough: depth 2 n in {1..6,16} and depth 3 n in {1,7}), VM (+ JIT on one workload per kind), plus the no-pool paths (cancel at every poll), ThreadPool::Global (one workload per kind), and the row-parallel post-processing effects denoise_normals + apply_shading (6 rows cut into <= 3 jobs; SSAO excluded: unseeded RNG); oracles: never cancelled => Some(r) with r equal to the sequential no-pool result (images bitwise, meshes as sorted multisets of rotation-normalised triangles over vertex bit patterns); cancelled => None or exactly the full result, and None when the token is set at the first opportunity; one schedule per workload is replayed twice and must reproduce trace and observation; a prefix that diverges is a machinery error; shared tapes: 3 controlled threads x 2 rounds of point / interval / float-slice / grad-slice evaluation through handles onto one set of tapes, with a scheduling point before each round's tracing evaluations and before its bulk evaluations (4 per thread), explored like the other workloads, each thread's results equal to its solo results; pool-size sweep (round 10, a product enumeration in the default schedule): 375 off-lattice spheres (5^3 centres x 4 radii, the larger two thinned) x depths 2, 3, 4 x EVERY pool size 1..=16 - the mesh must equal the no-pool mesh (which cells are pre-split depends on the pool size; whether a pre-split cell collapses at the merge fix-up depends on the geometry); labelled sampling supplement: the same bodies on free-running OS threads (200 rounds) - reported under its own counter, not deciding".into(),
             bounds: match tier {
                 Tier::Quick => "preemption bound 2 (raster, shared tape), 1 (mesh); schedules are explored in order of increasing preemption count and capped at 8000 per workload: a workload that hits the cap is fully explored only up to the bound recorded in the counters workloads_fully_explored_to_preemption_bound_<k>".into(),
                 Tier::Thorough => "preemption bound 2 (raster, mesh), 3 (shared tape); schedules are explored in order of increasing preemption count and capped at 100000 per workload: a workload that hits the cap is fully explored only up to the bound recorded in the counters workloads_fully_explored_to_preemption_bound_<k>".into(),
@@ -831,6 +909,7 @@ impl Check for C09 {
             Unit::Effects => {
                 explore(cx, &mut sub, &effects(), true, false, 2, cap);
             }
+            Unit::PoolSweep { depth, chunk } => pool_sweep(cx, depth, chunk),
             Unit::SharedTape { jit } => {
                 let bound = if tier == Tier::Quick { 2 } else { 3 };
                 if jit {
